@@ -17,8 +17,10 @@
 #include <math.h>
 #include <limits.h>
 
-static int in_phase = 0, in_improve = 0, in_std = 0;
+static int in_phase = 0, in_improve = 0, in_std = 0, in_sec = 0, sec_depth = 0, in_hook = 0;
+static mps_context *g_ctx = NULL;
 
+mps_boolean __real_mps_context_has_errors (mps_context *s);
 static void p_d (double d) { uint64_t u; memcpy (&u, &d, 8); printf ("%016lx", (unsigned long)u); }
 static void p_rdpe (const rdpe_t e) { p_d (rdpe_Mnt (e)); printf (":%ld", rdpe_Esp (e)); }
 static void p_roots (mps_context *s)
@@ -40,7 +42,7 @@ void __wrap_mps_standard_mpsolve (mps_context *s)
           p->fnewton != NULL && p->dnewton != NULL && p->mnewton != NULL, s->mpwp_max, mps_context_get_minimum_precision (s),
           p->prec, p->density == MPS_DENSITY_USER, s->output_config->prec, s->n);
   __real_mps_standard_mpsolve (s);
-  printf ("C02EV STD_END %d %d %ld\n", (int)mps_context_has_errors (s), (int)s->over_max, s->mpwp);
+  printf ("C02EV STD_END %d %d %ld\n", (int)__real_mps_context_has_errors (s), (int)s->over_max, s->mpwp);
   in_std = 0;
 }
 
@@ -48,7 +50,7 @@ void __real_mps_check_data (mps_context *s, char *which_case);
 void __wrap_mps_check_data (mps_context *s, char *which_case)
 {
   __real_mps_check_data (s, which_case);
-  printf ("C02EV CD %d %d\n", *which_case == 'd', (int)mps_context_has_errors (s));
+  printf ("C02EV CD %d %d\n", *which_case == 'd', (int)__real_mps_context_has_errors (s));
 }
 
 void __real_mps_fsolve (mps_context *s, mps_boolean *d_after_f);
@@ -173,7 +175,103 @@ void __wrap_mps_thread_pool_wait (mps_context *s, mps_thread_pool *pool)
 void __real_mps_copy_roots (mps_context *s);
 void __wrap_mps_copy_roots (mps_context *s)
 {
-  printf ("C02EV COPY %ld %d %ld %d", s->clusterization->n, (int)s->over_max, s->mpwp, (int)mps_context_has_errors (s));
+  printf ("C02EV COPY %ld %d %ld %d", s->clusterization->n, (int)s->over_max, s->mpwp, (int)__real_mps_context_has_errors (s));
   p_roots (s); printf ("\n");
   __real_mps_copy_roots (s);
 }
+
+/* ------------------------------------------------------------------ the secular driver
+ * Calls from secsolve/secular-ga.c into other translation units are wrapped as above.  mps_secular_ga_check_stop is
+ * called from its own translation unit: the check compiles a COPY of the snapshot's secular-ga.c with
+ * -finstrument-functions into this harness (it then replaces the archive member); the exit hook below prints what
+ * the context holds when mps_secular_ga_check_stop returns and its answer (the function is pure: it is called once
+ * more from the hook to read it). */
+#define NOINSTR __attribute__((no_instrument_function))
+static void p_sts (mps_context *s) NOINSTR;
+static void p_sts (mps_context *s)
+{
+  int i; printf (" %d", s->n);
+  for (i = 0; i < s->n; i++) printf (" %d", (int)s->root[i]->status);
+}
+void __cyg_profile_func_enter (void *fn, void *site) NOINSTR;
+void __cyg_profile_func_exit (void *fn, void *site) NOINSTR;
+void __cyg_profile_func_enter (void *fn, void *site) { (void)fn; (void)site; }
+void __cyg_profile_func_exit (void *fn, void *site)
+{
+  (void)site;
+  if (fn == (void *)mps_secular_ga_check_stop && g_ctx != NULL && in_sec && !in_hook)
+    {
+      mps_boolean r;
+      in_hook = 1;
+      r = mps_secular_ga_check_stop (g_ctx);
+      printf ("C02EV SSTOP %d %d %d", (int)r, (int)g_ctx->exit_required, (int)g_ctx->lastphase); p_sts (g_ctx); printf ("\n");
+      in_hook = 0;
+    }
+}
+
+mps_boolean __real_mps_context_has_errors (mps_context *s);
+mps_boolean __wrap_mps_context_has_errors (mps_context *s)
+{
+  mps_boolean r = __real_mps_context_has_errors (s);
+  if (in_sec && sec_depth == 0 && !in_hook && !in_improve)
+    printf ("C02EV ERRQ %d %d %d\n", (int)r, (int)s->lastphase, (int)s->exit_required);
+  return r;
+}
+
+void __real_mps_secular_ga_mpsolve (mps_context *s);
+void __wrap_mps_secular_ga_mpsolve (mps_context *s)
+{
+  mps_polynomial *p = s->active_poly;
+  g_ctx = s; 
+  printf ("C02EV SEC_BEGIN %d %d %d %d %d %d %ld %d %d %ld %d\n", (int)s->output_config->goal, MPS_IS_SECULAR_EQUATION (p) ? 1 : 0,
+          (int)s->input_config->starting_phase, (int)s->crude_approximation_mode, (int)s->avoid_multiprecision, s->max_pack, p->prec,
+          p->mnewton == NULL, p->density == MPS_DENSITY_USER, s->output_config->prec, p->degree);
+  in_sec = 1; sec_depth = 0;
+  __real_mps_secular_ga_mpsolve (s);
+  in_sec = 0;
+  printf ("C02EV SEC_END %d %d %d\n", (int)__real_mps_context_has_errors (s), (int)s->over_max, (int)s->lastphase);
+}
+
+#define SECWRAP_VOID(name, decl, args, after)                                   \
+  void __real_##name decl;                                                      \
+  void __wrap_##name decl { sec_depth++; __real_##name args; sec_depth--; if (in_sec && sec_depth == 0) { after; } }
+
+SECWRAP_VOID (mps_polynomial_fstart, (mps_context *s, mps_polynomial *p, mps_approximation **a), (s, p, a),
+              printf ("C02EV START f %d\n", (int)__real_mps_context_has_errors (s)))
+SECWRAP_VOID (mps_polynomial_dstart, (mps_context *s, mps_polynomial *p, mps_approximation **a), (s, p, a),
+              printf ("C02EV START d %d\n", (int)__real_mps_context_has_errors (s)))
+SECWRAP_VOID (mps_cluster_analysis, (mps_context *s, mps_polynomial *p), (s, p), printf ("C02EV CLUSTER\n"))
+SECWRAP_VOID (mps_secular_fstart, (mps_context *s, mps_secular_equation *e, mps_approximation **a), (s, e, a), printf ("C02EV SSTART f\n"))
+SECWRAP_VOID (mps_secular_dstart, (mps_context *s, mps_secular_equation *e, mps_approximation **a), (s, e, a), printf ("C02EV SSTART d\n"))
+SECWRAP_VOID (mps_secular_mstart, (mps_context *s, mps_secular_equation *e, mps_approximation **a), (s, e, a), printf ("C02EV SSTART m\n"))
+SECWRAP_VOID (mps_secular_switch_phase, (mps_context *s, mps_phase ph), (s, ph), printf ("C02EV SWITCH %d\n", (int)s->lastphase))
+SECWRAP_VOID (mps_secular_raise_precision, (mps_context *s, int wp), (s, wp), printf ("C02EV RAISE %d\n", wp))
+SECWRAP_VOID (mps_secular_restart, (mps_context *s), (s), printf ("C02EV RESTART\n"))
+SECWRAP_VOID (mps_validate_inclusions, (mps_context *s), (s), { printf ("C02EV VALIDATE"); p_sts (s); printf ("\n"); })
+SECWRAP_VOID (mps_mupdate_inclusions, (mps_context *s), (s), printf ("C02EV MUPD\n"))
+
+mps_boolean __real_mps_secular_ga_regenerate_coefficients (mps_context *s);
+mps_boolean __wrap_mps_secular_ga_regenerate_coefficients (mps_context *s)
+{
+  mps_boolean r;
+  sec_depth++; r = __real_mps_secular_ga_regenerate_coefficients (s); sec_depth--;
+  if (in_sec && sec_depth == 0) printf ("C02EV REGEN %d %d\n", (int)r, (int)s->lastphase);
+  return r;
+}
+
+#define SECWRAP_ITER(name, kind, T2)                                                                   \
+  int __real_##name (mps_context *s, T2 b, mps_boolean jr);                                            \
+  int __wrap_##name (mps_context *s, T2 b, mps_boolean jr)                                             \
+  {                                                                                                    \
+    int r; sec_depth++; r = __real_##name (s, b, jr); sec_depth--;                                     \
+    if (in_sec && sec_depth == 0)                                                                      \
+      { printf ("C02EV PACKET %s %d %d %d %d %d", kind, r == -1, (int)s->best_approx, (int)s->lastphase, (int)s->exit_required, (int)jr); \
+        p_sts (s); printf ("\n"); }                                                                    \
+    return r;                                                                                          \
+  }
+SECWRAP_ITER (mps_secular_ga_fiterate, "sf", int)
+SECWRAP_ITER (mps_secular_ga_diterate, "sd", int)
+SECWRAP_ITER (mps_secular_ga_miterate, "sm", int)
+SECWRAP_ITER (mps_faberth_packet, "jf", mps_polynomial *)
+SECWRAP_ITER (mps_daberth_packet, "jd", mps_polynomial *)
+SECWRAP_ITER (mps_maberth_packet, "jm", mps_polynomial *)
